@@ -124,6 +124,26 @@ def run(scenario):
                     bad.append("rent differs")
         elif scenario == "round-trip":
             bad = round_trip()
+        elif scenario == "restore-twice":
+            # the same directory restored, replaced by another dump (moved into place), restored again: the second restore holds the
+            # second dump's values
+            import os
+            import shutil
+            def sim_with(v):
+                return SimulationBuilder().build_from_dict(tbs, {
+                    "persons": {"a": {"salary": {"2020-01": v}}, "b": {"salary": {"2020-01": 2 * v}}},
+                    "households": {"h1": {"members": ["a", "b"], "rent": {"2020-01": v + 1}}}})
+            with tempfile.TemporaryDirectory(dir="/var/tmp") as d:
+                simulation_dumper.dump_simulation(sim_with(10), d + "/dump")
+                s1 = simulation_dumper.restore_simulation(d + "/dump", tbs)
+                first = s1.get_array("salary", "2020-01").tolist()
+                simulation_dumper.dump_simulation(sim_with(500), d + "/staging")
+                shutil.rmtree(d + "/dump")
+                os.rename(d + "/staging", d + "/dump")
+                s2 = simulation_dumper.restore_simulation(d + "/dump", tbs)
+                got = s2.get_array("salary", "2020-01").tolist()
+                if got != [500.0, 1000.0] or s2.get_array("rent", "2020-01").tolist() != [501.0]:
+                    bad.append(f"the second restore of the directory holds salary {got} (the first dump had {first}), the dump now in place has [500.0, 1000.0]")
         elif scenario == "no-group-entity":
             tbs1 = taxbenefitsystems.TaxBenefitSystem([person])
             tbs1.add_variable(salary)
